@@ -3,10 +3,12 @@ Driver for the codec interpreter (C01, C02, C12, C15 and the codec half of C10).
   schema <id> <json>            register a schema (IR JSON from translate/cats.py)
   enc|size|sort|json <id> <Type> <value-json>
   dec <id> <Type> <hex>
+  adm <id> <Type> <value-json>  is the value admissible (`Codec.adm`)?  answers `ok true|false`
 Answers: `ok <payload>` or `err <class>`.
 -/
 import Driver.Util
 import Driver.CodecWire
+import SymbolVerif.Model.Codec.WF
 import SymbolVerif.Model.Hash.Keccak
 import SymbolVerif.Model.Hash.Ripemd160
 open SymbolVerif SymbolVerif.Codec Driver Driver.CodecWire
@@ -44,6 +46,11 @@ def handleReq (schemas : List (String × Schema)) (op : String) (args : List Str
     let S ← (schemas.find? (·.1 == sid)).map (·.2)
     match Lean.Json.parse vj >>= parseVal with
     | .ok v => some (showR (fun l => if l.isEmpty then "-" else ",".intercalate (l.map fun (n, k, o, len) => s!"{n}:{k}:{o}:{len}")) (layoutOf S transform ty v))
+    | .error e => some ("bad-value " ++ e)
+  | "adm", [sid, ty, vj] =>
+    let S ← (schemas.find? (·.1 == sid)).map (·.2)
+    match Lean.Json.parse vj >>= parseVal with
+    | .ok v => some ("ok " ++ toString (adm S transform ty v))
     | .error e => some ("bad-value " ++ e)
   | "dec", [sid, ty, hex] =>
     let S ← (schemas.find? (·.1 == sid)).map (·.2)
